@@ -3,7 +3,7 @@ from pyvc.bounded import NativeBounded
 
 
 class EntityModelsBounded(NativeBounded):
-    property_ids = ["C11"]
+    property_ids = ["C11", "C02", "C03"]
     module = "contracts.connect_native"
     func = "bounded_entity_models"
     what = "mosaik.scenario.ModelMock.create / _make_entities (+ World.connect's attribute validation on the created entities)"
